@@ -23,7 +23,9 @@ impl VfStrColl for Vec<String> { open spec fn strs(&self) -> Set<String> { self@
 impl VfStrColl for HashSet<String> { open spec fn strs(&self) -> Set<String> { self@ } }
 
 // ---- abstract components (their own units carry their contracts) --------------------------------
-pub struct Blocker { pub tags_enabled: HashSet<String>, pub rules: Ghost<int> }
+// `active_for`: the tag set the blocker's list of ACTIVE tagged rules (filters_tagged) was last rebuilt for (tags_with_set, unit
+// c04_partition: C07.tags_with_set.active); a decoded blocker carries the list of whatever engine wrote the buffer
+pub struct Blocker { pub tags_enabled: HashSet<String>, pub rules: Ghost<int>, pub active_for: Ghost<Set<String>> }
 pub struct CosmeticFilterCache { pub rules: Ghost<int> }
 pub struct ResourceStorage { pub content: Ghost<int> }
 
@@ -40,6 +42,7 @@ impl Blocker {
         ensures
             final(self).rules == old(self).rules,
             final(self).tags_enabled@ =~= v.strs(),
+            final(self).active_for@ == final(self).tags_enabled@,
     { unimplemented!() }
 
     // contract of Blocker::use_tags (set assignment; rules untouched) — unit c04_partition (tags_with_set)
@@ -48,6 +51,7 @@ impl Blocker {
         ensures
             final(self).rules == old(self).rules,
             forall|t: String| final(self).tags_enabled@.contains(t) <==> exists|i: int| 0 <= i < tags@.len() && (#[trigger] tags@[i])@ == t@,
+            final(self).active_for@ == final(self).tags_enabled@,
     { unimplemented!() }
 }
 
@@ -90,6 +94,8 @@ impl Engine {
             && final(self).resources == old(self).resources, // OBL C10.engine.ok_replaces_rules
         // ... "and keeps the caller's enabled set"
         r is Ok ==> forall|t: String| final(self).blocker.tags_enabled@.contains(t) <==> old(self).blocker.tags_enabled@.contains(t), // OBL C07.engine.keeps_tags
+        // ... and the loaded tagged rules are active for exactly that set, whatever the engine that wrote the buffer had enabled
+        r is Ok ==> final(self).blocker.active_for@ == final(self).blocker.tags_enabled@, // OBL C07.engine.active_list_rebuilt
 //@ ENDSPEC
 //@ SUBST R6
     self.blocker
